@@ -1,12 +1,67 @@
-(* Props/C03.v -- triangulation (placeholder section, theorems follow in Geom/Tri_proofs.v). *)
-From Coq Require Import ZArith List.
-From SCAD Require Import Base.Num Base.Vec Geom.Tri.
+(* Props/C03.v -- triangulation. The theorems hold for every number type (so for the float reading the
+   implementation is compared with, too) except the area ones, which are stated over the reals. *)
+From Coq Require Import ZArith List Reals.
+From SCAD Require Import Base.Num Base.NumR Base.Vec Geom.Tri Geom.Tri_proofs.
 Import ListNotations.
 
-(* fewer than four vertices are rejected by all four entry points (the Rust asserts) *)
+(* fewer than four vertices are rejected by all entry points (the Rust asserts) *)
 Theorem C03_rejects_small {T} `{Num T} : forall (v : list (pt2 T)), (length v <= 3)%nat ->
   triangulate2d v = None /\ triangulate2d_rev v = None.
 Proof.
   intros v Hv. unfold triangulate2d, triangulate2d_rev.
   destruct (Nat.ltb_spec 3 (length v)); [exfalso; apply (Nat.lt_irrefl 3); eapply Nat.lt_le_trans; eassumption|split; reflexivity].
 Qed.
+
+(* more than three vertices: both 2D entry points answer, and only with indices of the input *)
+Theorem C03_indices {T} `{Num T} : forall (v : list (pt2 T)), (3 < length v)%nat ->
+  exists out, triangulate2d v = Some out /\ (forall i, In i out -> (0 <= i < Z.of_nat (length v))%Z) /\
+  exists out', triangulate2d_rev v = Some out' /\ (forall i, In i out' -> (0 <= i < Z.of_nat (length v))%Z).
+Proof. exact (@triangulate2d_indices T H). Qed.
+
+(* the output is the index triples of the run; one triangle per clipped vertex; at most n - 2; exactly n - 2 unless
+   the loop stopped because its own ear test accepted no vertex of the polygon that was left *)
+Theorem C03_count {T} `{Num T} : forall (poly : list (@vtx T)), (3 <= length poly)%nat ->
+  let out := triangulate poly in let rest := snd (run poly) in
+  length out = (3 * (length poly - length rest))%nat /\ (2 <= length rest)%nat /\
+  (length rest = 2%nat \/ ((3 <= length rest)%nat /\ find_ear (ref_ccw poly) rest = None)).
+Proof. exact (@triangulate_count T H). Qed.
+Theorem C03_output_is_run {T} `{Num T} : forall (poly : list (@vtx T)), triangulate poly = flat_map idx3 (fst (run poly)).
+Proof. exact (@triangulate_run T H). Qed.
+
+(* every triangle is wound like the reference corner (the left-most vertex) *)
+Theorem C03_winding {T} `{Num T} : forall (poly : list (@vtx T)), Forall (wound (ref_ccw poly)) (fst (run poly)).
+Proof. intros poly. exact (clipv_winding (ref_ccw poly) (length poly) poly). Qed.
+
+(* complete results (n - 2 triangles): for every ordered pair of indices, uses of u->v minus uses of v->u over
+   the triangles equal the same count for the polygon (each polygon edge once more along than against, each
+   diagonal as often one way as the other) *)
+Theorem C03_complete_boundary {T} `{Num T} : forall (poly : list (@vtx T)), (3 <= length poly)%nat ->
+  length (triangulate poly) = (3 * (length poly - 2))%nat ->
+  forall u v, net_tris u v (fst (run poly)) = net u v poly.
+Proof. exact (@complete_boundary T H). Qed.
+
+(* complete results, reals: signed areas add up to the polygon's (shoelace) signed area, absolute areas to its
+   absolute area, and the reference winding is the polygon's own orientation *)
+Theorem C03_complete_area : forall (poly : list (@vtx R)), (3 <= length poly)%nat ->
+  length (triangulate poly) = (3 * (length poly - 2))%nat ->
+  sum_area2 (fst (run poly)) = area2 poly /\ sum_abs_area2 (fst (run poly)) = Rabs (area2 poly) /\
+  (ref_ccw poly = true -> (0 < area2 poly)%R) /\ (ref_ccw poly = false -> (area2 poly <= 0)%R).
+Proof. exact complete_area. Qed.
+(* at every stage, complete or not: polygon area = area of what is left + area of the triangles *)
+Theorem C03_area_split : forall (poly : list (@vtx R)), area2 poly = (area2 (snd (run poly)) + sum_area2 (fst (run poly)))%R.
+Proof. exact area_split. Qed.
+
+(* the _rev entry points run the same function on the reversed list: its triangles are wound the other way *)
+Theorem C03_rev_opposite : forall (poly : list (@vtx R)), (3 <= length poly)%nat ->
+  length (triangulate poly) = (3 * (length poly - 2))%nat ->
+  length (triangulate (rev poly)) = (3 * (length poly - 2))%nat ->
+  area2 poly <> 0%R -> ref_ccw (rev poly) = negb (ref_ccw poly).
+Proof. exact rev_opposite. Qed.
+
+(* not vacuous: the unit square, both windings, in the rational reading *)
+From SCAD Require Import Base.NumQ.
+From Coq Require Import QArith.
+Example C03_square_complete :
+  let sq := [Pt2 0%Q 0%Q; Pt2 0%Q 1%Q; Pt2 1%Q 1%Q; Pt2 1%Q 0%Q] in
+  triangulate2d sq = Some [3; 0; 1; 3; 1; 2]%Z /\ triangulate2d_rev sq = Some [0; 3; 2; 0; 2; 1]%Z.
+Proof. vm_compute. split; reflexivity. Qed.
